@@ -40,4 +40,16 @@ TEXT["C05"] = dict(
     level_note=NOTE_COMMON,
     technique="Lean 4 inductive invariant (custody ledger) + differential + scheduled-run drop ledger",
 )
+def _t(level_text, ref, tech, note=""):
+    return dict(level_text=level_text, design_ref=ref, level_note=NOTE_COMMON + note, technique=tech)
+
+
+TEXT["C02"] = _t("Proof: the FIFO invariant — the accepted-and-not-withdrawn values are, in acceptance order, the delivered values followed by the buffer followed by the blocked senders' values in wait-list order — is proved inductive over every step of the Lean model (Fifo.lean, all labels: buffered, blocked sync/async, direct hand-off, refill, drain, timed-out/cancelled/closed entries removed from the middle). Corollaries c02_delivered_in_order, c02_no_overtaking, c02_inside_in_order. Acceptance/delivery points are steps inside the calls' real-time intervals, which gives the property's real-time phrasing. Tie: extractor list-discipline facts, sequential differential (refill/cancel sequences), scheduled concurrent runs with a real-time FIFO monitor on the recorded history.",
+                 "DESIGN.md §5 C02", "Lean 4 inductive invariant (acceptance-order ledger) + differential + real-time FIFO monitor on scheduled runs")
+TEXT["C08"] = _t("Proof: Lean theorems c08_len (buffer within capacity in every reachable state), c08_wait_justified, c08_full_iff (refused/must wait iff no waiting receiver and no room), c08_unbounded, c08_rendezvous (capacity 0 never buffers), c08_backpressure (accepted-not-blocked minus delivered = buffer length <= n), c08_is_full; admission operator at all 8 sites extracted and checked (Tie.admission_ok). Tie: differential at the boundary for all send entry points, scheduled concurrent runs with a capacity-counting monitor.",
+                 "DESIGN.md §5 C08", "Lean 4 invariants over the channel model + extracted admission tests + differential + capacity monitor")
+TEXT["C10"] = _t("Proof: Lean theorems c10_once, c10_releases (wait list emptied, every waiter terminated, buffer destroyed, counts zero, all in the close critical section), c10_after / c10_after_futures (every entry point answers Closed afterwards), c10_no_delivery_after (delivery log frozen) for every reachable state and every variant. Tie: extractor (close is one guard: test, zero, terminate, clear), differential on close-centred sequences, scheduled concurrent runs with close issued at random points, monitored.",
+                 "DESIGN.md §5 C10", "Lean 4 theorems over the channel model + differential + close monitor on scheduled runs")
+TEXT["C11"] = _t("Proof: Lean theorems c11_alive (no disconnect error while a handle of that side lives, using the C12 count invariant), c11_drain_then_error, c11_release (the 1->0 drop terminates all waiters), c11_no_receivers (send fails with ReceiveClosed, value handed back or destroyed once and — by the custody-stability theorem — never delivered in any continuation). Tie: extractor guards, differential with clone/drop sequences, scheduled runs with handle drops racing blocked operations, disconnect monitor.",
+                 "DESIGN.md §5 C11", "Lean 4 theorems (counts + structural invariant + custody stability) + differential + disconnect monitor")
 NOT_YET = {}
